@@ -11,7 +11,7 @@ from ..monitors import V
 from ..spaces import shard_iter
 
 ID = "C16"
-BUDGET = {"quick": 150, "thorough": 1200}
+BUDGET = {"quick": 300, "thorough": 1200}
 
 LIB_SRC = '''
 from tawazi import xn, dag, Resource
